@@ -96,6 +96,8 @@ def norm_shape(s):
         prev = s
         s = re.sub(r"Try>::branch\(((?:[^()]|\([^()]*\))*)\) as Continue\.0", r"\1?", s)
     s = s.replace(" as Some.0", "?").replace(" as Ok.0", "?")
+    # loop-carried locals are printed as name': the name of a local is not part of a site's identity
+    s = re.sub(r"\b[A-Za-z_][A-Za-z0-9_]*'", "\u03c6'", s)
     return s
 
 
@@ -199,6 +201,8 @@ def analyse_body(ctx, body, max_paths=40000):
                 continue
             s.paths += 1
             arg = discharge(body, s, p, i, e)
+            if arg is None and "{closure" in body.path:
+                arg = closure_context_arg(ctx, body, s, p, i, e)
             if arg is None:
                 s.undischarged.append(describe_event(e))
             else:
@@ -206,6 +210,82 @@ def analyse_body(ctx, body, max_paths=40000):
             if s.descr is None:
                 s.descr = describe_event(e)
     return list(sites.values())
+
+
+ITEM_ADAPTORS = ("find", "position", "rposition", "any", "all", "filter", "take_while", "skip_while", "map", "for_each", "find_map", "filter_map", "inspect")
+_CLOSURE_CTX = {}
+
+
+def closure_sites(ctx, K):
+    """Where the closure K is handed over in its parent: [(adaptor name, origin slice of the iterator's items or None,
+    captured operands)] ; None if some use is not an item adaptor of an iterator (then nothing is known about the parameter)."""
+    key = (id(K.facts), K.path)
+    if key in _CLOSURE_CTX:
+        return _CLOSURE_CTX[key]
+    out = []
+    ok = True
+    parent_path = re.sub(r"::\{closure#\d+\}$", "", K.path)
+    P = K.facts.by_raw.get(parent_path)
+    if P is None:
+        ok = False
+    else:
+        try:
+            ppaths = ctx.paths(P, max_paths=20000)
+        except Exception:
+            ppaths = []
+            ok = False
+        seen = set()
+        for p in ppaths:
+            for e in p:
+                if e[0] != "call":
+                    continue
+                cl = [a for a in e[3] if strip_wrappers(a)[0] == "closure" and strip_wrappers(a)[1] == K.path]
+                if not cl or (e[1], str(e[2])) in seen:
+                    continue
+                seen.add((e[1], str(e[2])))
+                nm = sym.short(e[2]).split("::")[-1] if isinstance(e[2], str) else "?"
+                if nm not in ITEM_ADAPTORS or "Iterator" not in str(e[2]):
+                    ok = False
+                    continue
+                it = strip_wrappers(e[3][0])
+                if it[0] == "phi" and len(it) > 4:
+                    it = strip_wrappers(it[4])
+                while it[0] == "call" and name_is(it[2], "into_iter", "by_ref"):
+                    it = strip_wrappers(it[3][0])
+                org = base_slice(it[3][-1]) if it[0] == "call" and name_is(it[2], "memchr_iter", "memchr2_iter", "memchr3_iter") else None
+                out.append((nm, org, strip_wrappers(cl[0])[2]))
+    _CLOSURE_CTX[key] = out if ok and out else None
+    return _CLOSURE_CTX[key]
+
+
+def closure_context_arg(ctx, K, site, p, i, e):
+    """A closure that is only ever the predicate of a search iterator over a slice it also captured: its parameter is
+    a position inside that slice."""
+    cs = closure_sites(ctx, K)
+    if not cs or e[0] != "call" or site.kind != "index-range":
+        return None
+    base = strip_wrappers(e[3][0])
+    rng = strip_wrappers(e[3][1])
+    if rng[0] != "agg" or rng[2] not in ("RangeTo", "RangeFrom"):
+        return None
+    bound = strip_wrappers(rng[3][0])
+    # the bound is the closure's own parameter (argument 2, possibly a reference pattern)
+    is_param = bound[0] == "arg" and bound[1] == 2 or (bound[0] == "pl" and strip_wrappers(bound[1])[0] == "arg" and strip_wrappers(bound[1])[1] == 2 and all(x == "*" for x in bound[2]))
+    if not is_param:
+        return None
+    # the base is a captured variable
+    while base[0] == "call" and name_is(base[2], "deref", "as_ref", "as_bytes"):
+        base = strip_wrappers(base[3][0])
+    if not (base[0] == "pl" and strip_wrappers(base[1])[0] == "arg" and strip_wrappers(base[1])[1] == 1):
+        return None
+    fs = [x for x in base[2] if isinstance(x, tuple) and x[0] == "f"]
+    if not fs:
+        return None
+    k = fs[0][1]
+    for nm, org, ops in cs:
+        if org is None or k >= len(ops) or not same_slice(base_slice(ops[k]), org):
+            return None
+    return "closure parameter is an item of a search iterator over the captured slice (every use of the closure: %s)" % sorted({c[0] for c in cs})
 
 
 def describe_event(e):
@@ -616,7 +696,7 @@ def audit(ctx, rule, prefixes, exempt, floor, exclude=()):
                 k2 = "%s|%s" % (key.split("|")[0], key.split("|")[1])
                 hit = None
                 for ek, reason in exempt.items():
-                    if key_matches(norm_shape(ek), key):
+                    if key_matches(norm_shape(ek), norm_shape(key)):
                         hit = (ek, reason)
                         break
                 if hit:
